@@ -87,6 +87,9 @@ def gen_cases(tier, seed):
             {"kind": "ktensor", "shape": list(s), "rank": 2, "weights": [2.0, -1.0], "salt": 1, "vseed": seed},
             {"kind": "ttensor", "shape": list(s), "core_shape": [1] * len(s), "core": "dense", "core_pat": None,
              "salt": 2, "vseed": seed},
+            # a second sparse part whose stored positions overlap the first one's (sums of sparse parts only)
+            {"kind": "sptensor", "shape": list(s), "pat": [1 if i % 3 else 0 for i in range(n)], "vseed": seed + 2,
+             "order": list(range(sum(1 for i in range(n) if i % 3) - 1, -1, -1))},
         ]
         for k in (1, 2, 3):
             for combo in itertools.permutations(range(len(parts_pool)), k):
@@ -418,6 +421,22 @@ def _run_sptenmat(case, ctx):
                                 variant="dups")
                 if ok:
                     _check_sptenmat(p, "sptenmat.__init__", M3, A, R, C, "dups", k)
+            # ... and with repeated subscripts whose values cancel exactly (on a zero cell, listed first / last / apart)
+            zr, zc = np.nonzero(want == 0)
+            if len(zr):
+                base_s = np.column_stack([rows, cols]).reshape(-1, 2)
+                base_v = want[rows, cols].reshape(-1, 1)
+                z = np.array([[zr[0], zc[0]]])
+                for nm, ss, vv in (("first", [z, z, base_s], [[[2.5]], [[-2.5]], base_v]),
+                                   ("last", [base_s, z, z], [base_v, [[2.5]], [[-2.5]]]),
+                                   ("apart", [z, base_s, z], [[[2.5]], base_v, [[-2.5]]])):
+                    subs4 = np.vstack(ss).astype(int)
+                    vals4 = np.vstack([np.asarray(x, dtype=float).reshape(-1, 1) for x in vv])
+                    ok, M4 = p.call("sptenmat.__init__",
+                                    lambda: ttb.sptenmat(subs4, vals4, np.array(R, dtype=int), np.array(C, dtype=int), shape),
+                                    variant="dups_cancel:" + nm)
+                    if ok:
+                        _check_sptenmat(p, "sptenmat.__init__", M4, A, R, C, "dups_cancel:" + nm, k)
 
 
 def _sptenmat_setitem_histories(p, hd, A, R, C, kw):
